@@ -893,7 +893,10 @@ class Check(PropertyCheck):
                   "with doctored observations just outside it: flow states are compared by python equality (int/float numerically, "
                   "tuple/list, dict order, NaN=NaN — bool, str/bytes, list order, extra keys stay distinct), codec values with dicts as "
                   "finite maps and type-strict otherwise; expected states come from the flows built from the case spec before writing, "
-                  "never from the reader; the model tie (never the oracle) skips real-file / >6000-byte mutated files and two in three "
+                  "never from the reader, and — because get_state() itself is part of what is examined — every saved flow is also "
+                  "compared with its reloaded copy attribute by attribute through an observer in the harness that does not call "
+                  "get_state (same canonical comparison); flows are generated with every container-valued component at size 0 and "
+                  "every optional component present-but-empty as well; the model tie (never the oracle) skips real-file / >6000-byte mutated files and two in three "
                   "flow files in the thorough tier, and reports 'har' for HAR-branch inputs; round-trip hypotheses: dict keys are "
                   "null/int/bytes/str and pairwise distinct, str payloads are valid UTF-8, ints have <= 4300 digits, "
                   "float tokens are accepted literals, record size < 10^12 bytes, nesting within the recursion head-room.")
@@ -913,7 +916,7 @@ class Check(PropertyCheck):
             "file read once more in the same process — must still have the state that was written. "
             "distinct = distinct case content; non-trivial = non-empty input.")
     budget = {"quick": 6000, "thorough": 420000}
-    time_budget = {"quick": 18, "thorough": 330}
+    time_budget = {"quick": 15, "thorough": 330}
     fingerprints = ["mitmproxy.io.tnetstring:dumps", "mitmproxy.io.tnetstring:dump", "mitmproxy.io.tnetstring:_rdumpq",
                     "mitmproxy.io.tnetstring:load", "mitmproxy.io.tnetstring:parse", "mitmproxy.io.tnetstring:split",
                     "mitmproxy.io.tnetstring:pop", "mitmproxy.io.tnetstring:loads", "mitmproxy.io.io:FlowReader.stream",
